@@ -71,13 +71,17 @@ PROPS['C04'] = {
 }
 
 PROPS['C10'] = {
-    'module': 'Yabgp.Props.C10',
+    'module': 'Yabgp.Props.C10All',
     'theorems': ['Yabgp.C10_update_keeps_session', 'Yabgp.C10_decode_context_stable', 'Yabgp.C10_one_report',
-                 'Yabgp.C10_no_escape_send', 'Yabgp.C04_terminates'],
+                 'Yabgp.C10_no_escape_send', 'Yabgp.C04_terminates', 'Yabgp.C10_never_escapes', 'Yabgp.C10_reports_le_frames', 'Yabgp.no_escape_run',
+                 'Yabgp.ne_step', 'Yabgp.parseOpen_err', 'Yabgp.C02_never_stuck'],
     'genagree': SESSION_GEN,
     'suites': ['session', 'framing', 'hostile'],
-    'cannot': SESSION_CANNOT + '; memory exhaustion other than through non-termination; termination of the message '
-              'decoders themselves is C11',
+    'cannot': SESSION_CANNOT + '; whole histories: C10_never_escapes (after the agent\'s start no step of any run of enabled events - any '
+              'bytes in any segmentation - produces the escape marker, i.e. no exception leaves a callback of the modelled code) and '
+              'C02_never_stuck (after any input the agent is in session on a live connection or has its reconnection scheduled); '
+              'per message: at most one report, an UPDATE never leaves Established, the decode context changes only with an OPEN. '
+              'Not covered: memory exhaustion other than through non-termination; termination of the message decoders themselves is C11',
 }
 
 PROPS['C03'] = {
